@@ -153,7 +153,13 @@ func verifFill(v reflect.Value, field string, r *verifRng, depth int) {
 var verifIngAnnotations = [][2]string{
 	{"nginx.org/mergeable-ingress-type", "master"}, {"nginx.org/mergeable-ingress-type", "minion"}, {"nginx.org/mergeable-ingress-type", "bad"},
 	{"nginx.org/ssl-services", "s1"}, {"nginx.org/grpc-services", "s1"}, {"nginx.org/websocket-services", "s2"}, {"nginx.org/rewrites", "serviceName=s1 rewrite=/x"},
-	{"nginx.org/sticky-cookie-services", "serviceName=s1 srv_id"}, {"nginx.com/jwt-key", "k2"}, {"nginx.org/basic-auth-secret", "k1"}, {"nginx.org/listen-ports", "80,8080"},
+	{"nginx.org/sticky-cookie-services", "serviceName=s1 srv_id"}, {"nginx.com/sticky-cookie-services", "serviceName=s1 srv_id expires=1h path=/x"},
+	// free-form for the API server: every way one entry of a list annotation can be cut short or doubled
+	{"nginx.com/sticky-cookie-services", "serviceName srv_id expires=1h path=/x"}, {"nginx.com/sticky-cookie-services", "serviceName"},
+	{"nginx.com/sticky-cookie-services", "=s1 srv_id"}, {"nginx.com/sticky-cookie-services", "serviceName=s1 srv_id;serviceName"},
+	{"nginx.com/sticky-cookie-services", ";"}, {"nginx.com/sticky-cookie-services", "serviceName= "}, {"nginx.org/rewrites", "serviceName rewrite=/"},
+	{"nginx.org/rewrites", "serviceName=s1"}, {"nginx.org/rewrites", "rewrite=/x"}, {"nginx.com/slow-start", "s1"}, {"nginx.org/listen-ports", ","},
+	{"nginx.com/health-checks", "yes"}, {"nginx.org/server-tokens", ""}, {"nginx.org/lb-method", " "}, {"nginx.com/jwt-token", "$"}, {"nginx.com/jwt-key", "k2"}, {"nginx.org/basic-auth-secret", "k1"}, {"nginx.org/listen-ports", "80,8080"},
 	{"nginx.org/listen-ports-ssl", "443"}, {"nginx.org/server-snippets", "add_header X 1;"}, {"nginx.org/proxy-set-headers", "X-A: 1,X-B"}, {"nginx.org/path-regex", "case_sensitive"},
 	{"nginx.org/use-cluster-ip", "true"}, {"nginx.com/health-checks", "true"}, {"nginx.org/limit-req-rate", "10r/s"}, {"nginx.org/hsts", "true"}, {"nginx.org/redirect-to-https", "true"},
 	{"acme.cert-manager.io/http01-edit-in-place", "true"}, {"nginx.com/slow-start", "10s"}, {"nginx.org/lb-method", "ip_hash"}, {"nginx.org/server-tokens", "custom"},
